@@ -126,8 +126,8 @@ partial def regionWhyFs (S : StrFns) (camel : Bool) (L : List Mapper) (depth : N
       else if !prefixOK S fs' [] L' then "nested-level-round-collides-or-steps-differently"
       else if !reaggOK S L' fs' then
         (if fs'.any (fun f => match f with | .nested _ _ _ c2 _ => !(c2.ser.isEmpty && c2.desL.isEmpty) | _ => false)
-         then s!"own-mapper-at-depth>={depth + 2}-under-a-mapper-that-reaches-it"
-         else "reaggregation-level-not-ok")
+         then s!"reaggregation-off-the-handed-dict:own-mapper-at-depth>={depth + 2}-changed-from-above"
+         else "reaggregation-off-the-handed-dict:other")
       else if !prefixOK S fs' L' (camelTail camel) then "camel-round-collision"
       else regionWhyFs S camel (L' ++ camelTail camel) (depth + 1) fs'
     if here != "" then here else regionWhyFs S camel L depth fs
